@@ -272,7 +272,7 @@ fn task_strategy() -> BoxedStrategy<Task> {
 
 fn strategy(tier: Tier) -> BoxedStrategy<Case> {
     let reps = tier.pick(12u8, 40u8);
-    (prop::sample::select(vec![2usize, 2, 4, 4, 8, 16, 32]), any::<u64>())
+    (crate::gen::select(vec![2usize, 2, 4, 4, 8, 16, 32]), any::<u64>())
         .prop_flat_map(move |(n, _)| prop::collection::vec(prop::collection::vec(task_strategy(), 1..=3), n..=n))
         .prop_map(move |programs| Case { programs, repeats: reps })
         .boxed()
